@@ -31,6 +31,7 @@ struct growing_circular_array {
   T* get(std::size_t idx, std::memory_order order) {
     // (1) - this acquire-load synchronizes-with the release-store (2)
     auto capacitiy = _capacity.load(std::memory_order_acquire);
+    XENIUM_VERIF_POINT("growing_circular_array.get.between_loads");
     return get_entry(idx, capacitiy).load(order);
   }
 
